@@ -43,9 +43,9 @@ static SPECS: &[PropertySpec] = &[
         scenario: props::c01::scenario,
         level: "exploration",
         rule: "plans drawn from a seeded tape: framing x payload class x chunking x chunk-size spelling x trailing garbage x segmentation (uniform, 1-byte drip, targeted cuts inside CRLF/size line/head-body boundary) x caller read schedule x EINTR/coalescing; distinct = distinct plan-shape string (framing, size class, chunk-count class, >64KiB chunk, segmentation class, read class, garbage, eintr, coalesce); non-trivial = more than one delivery segment or a transport fault armed",
-        quick_runs: 6000,
+        quick_runs: 30000,
         matrix_cells: 0,
-        thorough_runs: 400_000,
+        thorough_runs: 50_000_000,
         real_components: REAL,
         stubbed_components: STUB,
         assumptions: &["network model: ordered reliable byte stream, arbitrary segmentation, EINTR before any byte is consumed", "sampling, not enumeration: a clean batch is evidence, not proof"],
@@ -55,9 +55,9 @@ static SPECS: &[PropertySpec] = &[
         scenario: props::c02::scenario,
         level: "exploration",
         rule: "a C01 plan plus exactly one damage: cut+FIN or cut+RST at an offset (targets: inside head, size line, between CR and LF, inside chunk data, before/inside the final 0 CRLF CRLF, one byte before the Content-Length end, uniform), silence longer than the read timeout followed by the rest of the bytes, or one corrupted chunk-framing byte; then 0..4 further caller reads after the first error; ground truth = lenient reference decoder on the delivered wire; distinct = plan-shape string incl. damage kind; every run is non-trivial (one fault by construction)",
-        quick_runs: 8000,
+        quick_runs: 40000,
         matrix_cells: 0,
-        thorough_runs: 600_000,
+        thorough_runs: 50_000_000,
         real_components: REAL,
         stubbed_components: STUB,
         assumptions: &["after RST queued data is still readable, then ConnectionReset once, then EOF (Linux semantics)", "only the first terminal event (first Err / Ok(0) / helper result) is judged for completeness; the prefix invariant and no-panic are judged on every call"],
@@ -67,9 +67,9 @@ static SPECS: &[PropertySpec] = &[
         scenario: props::c03::scenario,
         level: "exploration",
         rule: "method x status x Content-Length field list (0..3 copies; equal/different; valid, negative, empty, non-numeric, >2^64, '+n', list-valued) x Transfer-Encoding list (absent, chunked in any case, 'identity, chunked', split over two fields) x trailing bytes x peer closes|stays silent x segmentation x bytes()/read(); expected outcome from the RFC 9112 6.3 decision table (empty without waiting / payload / must fail / not decided); distinct = (method, status, CL shape, TE, end, expectation, reader, segmentation class); non-trivial = the table decides the combination",
-        quick_runs: 8000,
+        quick_runs: 40000,
         matrix_cells: 0,
-        thorough_runs: 500_000,
+        thorough_runs: 50_000_000,
         real_components: REAL,
         stubbed_components: STUB,
         assumptions: &["debatable spellings ('+n', 'n, n', bad Content-Length next to chunked or on a must-be-empty response) are don't-care", "the decision itself is a pure function of the head; the simulator supplies delivery schedule, the silent peer and the virtual clock"],
@@ -79,9 +79,9 @@ static SPECS: &[PropertySpec] = &[
         scenario: props::c04::scenario,
         level: "exploration",
         rule: "generated heads: status 100..999, any reason phrase / version token, 0..max_headers+1 fields (max_headers itself drawn: 0, 1, small, medium, default; exactly-at-limit and limit+1 targeted), names over the token alphabet in random case with duplicates, values over VCHAR/SP/HTAB/obs-text/empty with surrounding spaces and bare-LF continuations, heads larger than the 8 KiB buffer, single lines up to 15 KB; every segmentation class applied to the head; distinct = (status class, version, field-count class, limit class, big, TE, segmentation, accessor); non-trivial = at least one field",
-        quick_runs: 6000,
+        quick_runs: 30000,
         matrix_cells: 0,
-        thorough_runs: 300_000,
+        thorough_runs: 50_000_000,
         real_components: REAL,
         stubbed_components: STUB,
         assumptions: &["HTAB trimming and invalid header names are not demanded", "lines stay below the 16 KiB line limit (beyond it is C05's concern)"],
@@ -91,9 +91,9 @@ static SPECS: &[PropertySpec] = &[
         scenario: props::c05::scenario,
         level: "exploration",
         rule: "three generators feeding the response read path: (a) strings of up to 14 items over {digits, hex letters, ';', ':', SP, CR, LF, '+', '-', other, CRLF, status line} as the whole response or as a chunked body; (b) 1..4 mutations (bit flip, deletion, duplication, numeric blow-up to 2^31/2^32/2^63/2^64-1/2^64, splice, truncation) of a valid response; (c) 'endless' streams (0.5-2 MiB) for a status line without end, a header line without end, header fields without end, bare-LF continuation without end, a chunk-size line without end, and a gzip bomb; random segmentation, FIN/RST/stall endings, EINTR, 0..4 re-reads after errors; oracles: no panic, termination (event cap, deadlock detection, real-time hang monitor), bounded bytes pulled from the transport per construct, allocation monitor (largest request, peak live, hard cap 1 GiB); distinct = (generator kind, method, ending, segmentation, reread, read size, eintr); every run non-trivial",
-        quick_runs: 6000,
+        quick_runs: 12000,
         matrix_cells: 0,
-        thorough_runs: 300_000,
+        thorough_runs: 50_000_000,
         real_components: REAL,
         stubbed_components: STUB,
         assumptions: &["allocation failure cannot be injected (Rust aborts): sizes are monitored instead, requests above 1 GiB are refused and the abort is attributed to the run by the wrapper", "sampled, not exhaustive, over the small alphabet (exhaustive enumeration would be model checking)", "CONNECT refusal bodies are covered by C12"],
@@ -103,9 +103,9 @@ static SPECS: &[PropertySpec] = &[
         scenario: props::c06::scenario,
         level: "exploration",
         rule: "payload classes (empty, position-dependent text, random, framing look-alikes, highly repetitive, > 64 KiB) compressed by the harness with flate2 encoders at levels 0..9 (stored / fixed / dynamic blocks), gzip members with hand-written FEXTRA/FNAME/FCOMMENT headers; declared as Content-Encoding (any case, in a list) or as a transfer coding before chunked; unknown codings and no coding for the pass-through half; every framing, segmentation and read schedule of C01; damage family: truncation of the compressed stream at an offset class, single-bit flips in the gzip trailer; distinct = (coding, framing, level, label, damage, allow_compression, segmentation, plan shape); non-trivial = a coding is declared",
-        quick_runs: 5000,
+        quick_runs: 25000,
         matrix_cells: 0,
-        thorough_runs: 250_000,
+        thorough_runs: 50_000_000,
         real_components: REAL,
         stubbed_components: STUB,
         assumptions: &["deflate means raw DEFLATE as in the repository's own test_stream_deflate", "a raw deflate stream truncated after its last data byte carries no evidence of the cut (no checksum) and is not demanded to fail", "multi-member gzip and bytes after the member are not demanded"],
@@ -115,9 +115,9 @@ static SPECS: &[PropertySpec] = &[
         scenario: props::c07::scenario,
         level: "exploration",
         rule: "generated caller programs: method x path (unicode, sub-delims, pre-encoded) x URL query x param/params with arbitrary strings x header set/append over legal alphabets (incl. obs-text, empty, 9 KiB values) x basic/bearer credentials x body kind (none, text, bytes, file, json, streaming json, form, multipart, custom Body issuing write/write_all/flush sequences with zero-length and >8 KiB writes, honest KnownLength or Chunked) x transport write schedule (short writes, EINTR, slow peer); the peer's bytes are parsed by an independent strict HTTP/1.1 request parser; distinct = (method, body kind, counts, auth, fault class); non-trivial = a body or a write fault",
-        quick_runs: 6000,
+        quick_runs: 20000,
         matrix_cells: 0,
-        thorough_runs: 300_000,
+        thorough_runs: 50_000_000,
         real_components: REAL,
         stubbed_components: STUB,
         assumptions: &["callers never set Host/Connection/Content-Length/Transfer-Encoding/Accept-Encoding themselves", "bearer tokens contain no control characters", "part order of multipart bodies is not demanded"],
@@ -127,9 +127,9 @@ static SPECS: &[PropertySpec] = &[
         scenario: props::c08::scenario,
         level: "exploration",
         rule: "URLs: http/https x domain (also upper-case) / IPv4 / IPv6 host x default (implicit or explicit) / non-default port x empty/plain/percent-encoded/non-ASCII path x query forms x fragment x userinfo; world: no proxy / http proxy / https proxy (with or without proxy credentials), giving direct, forward-proxy (absolute-form, also inside TLS to an https proxy) and CONNECT-tunnel routes with TLS peers so that the inner request is observed in clear; observed: address handed to connect, request target, Host; distinct = (route, host form, port class, path/query/fragment/userinfo classes, proxy credentials); all runs non-trivial",
-        quick_runs: 4000,
+        quick_runs: 10000,
         matrix_cells: 0,
-        thorough_runs: 200_000,
+        thorough_runs: 50_000_000,
         real_components: TLS_REAL,
         stubbed_components: STUB,
         assumptions: &["the Host value on the http-via-proxy leg is not demanded", "TLS authentication is waived here (danger_accept_invalid_certs) - it is C14's subject", "https to an IPv6 literal may fail in the handshake: only the dial is judged there"],
@@ -139,9 +139,9 @@ static SPECS: &[PropertySpec] = &[
         scenario: props::c09::scenario,
         level: "exploration",
         rule: "redirect graphs over 3 hosts x 2 ports: chains of length 0..max+2 and cycles over followed statuses 301/302/303/307/308 with Location forms absolute, scheme-relative, absolute-path, relative-path with dot segments, query-only, with fragment, fragment-only, empty, upper-case scheme/host; terminals 2xx/4xx/5xx, unfollowed 3xx (300/304/305/306/399), missing / unparsable / non-http Location; max_redirections 0..6 or default; follow on/off; the recorded connection history is compared with a reference interpreter whose hop URLs come from an independent RFC 3986 section 5.2 resolver; distinct = (form list, statuses, max, follow); non-trivial = at least one hop",
-        quick_runs: 6000,
+        quick_runs: 30000,
         matrix_cells: 0,
-        thorough_runs: 300_000,
+        thorough_runs: 50_000_000,
         real_components: REAL,
         stubbed_components: STUB,
         assumptions: &["URLs compared modulo fragment", "generator stays inside the subset where WHATWG URL and RFC 3986 agree", "when the redirect budget is exhausted on a redirect that also has an unusable Location either error is accepted"],
@@ -151,9 +151,9 @@ static SPECS: &[PropertySpec] = &[
         scenario: props::c10::scenario,
         level: "exploration",
         rule: "redirect chains of 1..3 hops over followed statuses with Location forms that change host, port or neither, crossed with every request body kind of C07 (incl. file, multipart, custom write sequences) and with a forward-proxy world whose no-proxy list makes proxy applicability change between hops; every hop's bytes are parsed independently and pass the C07 oracle (equality of method/body while all preceding statuses are 307/308, framing consistency otherwise), dialled peer / Host / absolute-form authority belong to the hop's URL; distinct = (method, body kind, statuses, forms, proxy world); non-trivial = a body or a proxy",
-        quick_runs: 5000,
+        quick_runs: 25000,
         matrix_cells: 0,
-        thorough_runs: 200_000,
+        thorough_runs: 50_000_000,
         real_components: REAL,
         stubbed_components: STUB,
         assumptions: &["Host value on the http-via-proxy leg is not demanded", "no-proxy entries are whole host names here (suffix semantics belong to C11)"],
@@ -163,9 +163,9 @@ static SPECS: &[PropertySpec] = &[
         scenario: props::c11::scenario,
         level: "exploration",
         rule: "configuration sampling (no schedule or fault in this property - stated plainly): hosts over a small label alphabet so that equal / subdomain / same-suffix / superstring relations occur, IPv4/IPv6 literals; no-proxy entries derived from the host (equal, upper-case, parent domain, first characters dropped, TLD only, prefixed, empty); builder API and the simulated environment (8 variables over unset/empty/blank/http/https/socks/garbage, NO_PROXY lists with blanks and leading dots, '*'); observed on for_url() and on the peer send() dials; distinct = configuration shape; every run non-trivial",
-        quick_runs: 20000,
+        quick_runs: 100000,
         matrix_cells: 0,
-        thorough_runs: 2_000_000,
+        thorough_runs: 50_000_000,
         real_components: REAL,
         stubbed_components: STUB,
         assumptions: &["a lower-case variable that is present but ignorable next to a usable upper-case one, and '*' as an element of a longer list, are not decided by the statement (don't-care)", "builder entries never carry a leading dot (the statement defines dot-stripping for the environment only)"],
@@ -175,9 +175,9 @@ static SPECS: &[PropertySpec] = &[
         scenario: props::c12::scenario,
         level: "exploration",
         rule: "https URL (domain / IPv4 / IPv6 origin, default or explicit port) behind an http or https proxy whose URL has no / user-only / user:password credentials; the proxy's CONNECT reply is drawn: status 100..599, head valid / truncated at any offset / garbage, refusal body empty .. 10 KiB+-1 .. 'endless', delayed 0..40 ms, under segmentation, ending with FIN / RST / silence; the request carries Authorization, a marker header and a marker body; name-confusion variant (proxy named like the only name on the origin's certificate); oracles over the recorded write/deliver order of the proxy connection, the proxy's plaintext log, the TLS peers' logs and ErrorKind::ConnectError; distinct = (proxy kind, reply class, origin form, port, credentials, ending, body class, certificate, segmentation); all runs non-trivial",
-        quick_runs: 3000,
+        quick_runs: 8000,
         matrix_cells: 0,
-        thorough_runs: 150_000,
+        thorough_runs: 50_000_000,
         real_components: TLS_REAL,
         stubbed_components: STUB,
         assumptions: &["proxy URL credentials use unreserved characters only (percent-decoding policy is not stated)", "when the proxy URL has no credentials both an absent Proxy-Authorization and the encoding of empty credentials are accepted", "TLS success for IPv6-literal origins is not demanded", "both TLS back ends are exercised (two builds of the same check)"],
@@ -187,9 +187,9 @@ static SPECS: &[PropertySpec] = &[
         scenario: props::c13::scenario,
         level: "exploration",
         rule: "families: no-false-timeout (complete response, reads after end-of-body, zero-length reads, think time, early drop), stall and byte-drip at a drawn phase (before status line, inside head, between head and body, inside chunk / body), slow redirect chains, peer not reading the upload; T and R drawn per run (T only, R only, both); caller + watchdog threads interleaved by the seeded scheduler at every socket/channel/spawn/drop primitive; distinct = plan shape x schedule signature; all runs non-trivial",
-        quick_runs: 6000,
+        quick_runs: 20000,
         matrix_cells: 0,
-        thorough_runs: 400_000,
+        thorough_runs: 50_000_000,
         real_components: REAL,
         stubbed_components: STUB,
         assumptions: &["shutdown(Both) on a clone wakes a blocked reader with Ok(0) and a blocked writer with EPIPE (Linux)", "time spent inside connect itself is added to the bound (documented: timeout applies after the TCP connection is established)", "TLS and CONNECT-tunnel routes are part of the stall, drip and no-false-timeout families; both TLS back ends are exercised (two builds)"],
@@ -198,10 +198,10 @@ static SPECS: &[PropertySpec] = &[
         id: "C14",
         scenario: props::c14::scenario,
         level: "exploration",
-        rule: "the full matrix {chain to added root, self-signed, unknown issuer, expired} x {name matches, differs} x accept_invalid_certs x accept_invalid_hostnames x root added x {direct, via CONNECT, https proxy} x flag placed on {session, request, sibling request} = 576 cells, walked completely by run index (exhaustive for the matrix; each cell repeated under different scheduler/aux seeds); peers are rustls ServerConnection state machines driven by the kernel; the client handshake runs over the library's own BaseStream; distinct = matrix cell; every cell non-trivial",
-        quick_runs: 1152,
+        rule: "the full matrix {chain to added root, self-signed, unknown issuer, expired} x {name matches, differs} x accept_invalid_certs x accept_invalid_hostnames x root {none, the fixtures' CA, an unrelated CA after another session that added the fixtures' CA completed a handshake with the same flags} x {direct, via CONNECT, https proxy} x flag placed on {session, request, sibling request} = 864 cells, walked completely by run index (exhaustive for the matrix; each cell repeated under different scheduler/aux seeds); peers are rustls ServerConnection state machines driven by the kernel; the client handshake runs over the library's own BaseStream; distinct = matrix cell; every cell non-trivial",
+        quick_runs: 1728,
         matrix_cells: props::c14::CELLS,
-        thorough_runs: 576 * 20,
+        thorough_runs: 864 * 150,
         real_components: TLS_REAL,
         stubbed_components: STUB,
         assumptions: &["certificate validity is judged against the real wall clock by the TLS library; fixtures are valid 2020-2120 or expired since 2001 so the outcome does not depend on the date", "this build exercises one TLS back end (see evidence 'extra.backend'); the other back end is a second build of the same check", "no schedule or fault dimension: the matrix is finite and enumerated"],
@@ -211,9 +211,9 @@ static SPECS: &[PropertySpec] = &[
         scenario: props::c15::scenario,
         level: "exploration",
         rule: "forms with 0..6 text fields and 0..5 files; data over all byte values incl. CR, LF, dashes and look-alike delimiter lines; part sizes 0 .. >64 KiB drawn so that part boundaries cover the residues of the 8 KiB copy buffer; names/filenames over printable characters; valid MIME strings; transfer under short writes / EINTR / slow peer; the de-chunked body is decoded by an independent multipart decoder with the boundary from Content-Type; distinct = (field counts, size residue class, fault class, filename/mime counts); non-trivial = at least one field",
-        quick_runs: 5000,
+        quick_runs: 10000,
         matrix_cells: 0,
-        thorough_runs: 200_000,
+        thorough_runs: 50_000_000,
         real_components: REAL,
         stubbed_components: STUB,
         assumptions: &["part order is not demanded (multiset comparison)", "the boundary is drawn from the run PRNG through the guarded hook so runs replay byte-for-byte"],
@@ -223,9 +223,9 @@ static SPECS: &[PropertySpec] = &[
         scenario: props::c16::scenario,
         level: "exploration",
         rule: "operation histories of 3..25 ops over {new session, clone session, session setters (max_headers, max_redirections, follow_redirects, connect/read/overall timeout, proxy, default charset, compression, header set/append with colliding names incl. Accept and User-Agent), builder from session, standalone builder, builder setters, prepare, send (a prepared request may be sent twice)} executed by 1..3 simulated caller threads interleaved op by op by the seeded scheduler; reference model = records copied at clone/creation, updated in actual execution order; every send is observed behaviourally: header fields and Accept-Encoding on the wire, number of hops against a 8-redirect chain, header limit, peer dialled (proxy or origin), decoded text (default charset), and connect/read/overall timeouts as the exact simulated instant at which a black-holed connect / silent peer is given up; distinct = op-kind string x thread count x schedule signature; non-trivial = at least one send",
-        quick_runs: 4000,
+        quick_runs: 15000,
         matrix_cells: 0,
-        thorough_runs: 200_000,
+        thorough_runs: 50_000_000,
         real_components: REAL,
         stubbed_components: STUB,
         assumptions: &["there is no shared mutable state reachable from two threads except the Arc reference count; Arc is not instrumented, so the thread dimension contributes op-level interleavings only (not data-race coverage)", "TLS flags and added roots are covered per placement (session/request/sibling) by C14"],
@@ -235,9 +235,9 @@ static SPECS: &[PropertySpec] = &[
         scenario: props::c17::scenario,
         level: "exploration",
         rule: "resolver output: 0..3 IPv6 and 0..3 IPv4 addresses in a drawn interleaving; each address accepts / refuses after a latency around 0, just below/above the 200 ms race interval and around the connect timeout, or black-holes; connect timeout and overall deadline (none, zero, shorter than the race, long) drawn; racing threads interleaved by the seeded scheduler; distinct = (address behaviour list, connect timeout, deadline) x schedule signature; non-trivial = at least two addresses (the racing path)",
-        quick_runs: 6000,
+        quick_runs: 15000,
         matrix_cells: 0,
-        thorough_runs: 300_000,
+        thorough_runs: 50_000_000,
         real_components: REAL,
         stubbed_components: STUB,
         assumptions: &["attempts that would accept only after a deadline-clamped expiry are a don't-care zone", "losers of the race may live until their own connect timeout"],
@@ -247,9 +247,9 @@ static SPECS: &[PropertySpec] = &[
         scenario: props::c18::scenario,
         level: "exploration",
         rule: "bodies: text in 8 scripts re-encoded into each of the 38 exported charsets, truncated and damaged multi-byte sequences, random bytes, BOM-prefixed bodies (split-independence half only); Content-Type absent / without charset / with a known label in upper, lower or mixed case with or without the blank / unknown or empty label; default charset set or not; text, text_with, text_utf8, text_reader, text_reader_with with read sizes 1 B .. 9 KB; every framing, chunking and segmentation of C01; expected = one-shot encoding_rs decode of the whole payload with the charset chosen by the stated precedence; distinct = (API, body kind, header class, default, selected charset, plan shape); non-trivial = several delivery segments or a streaming reader",
-        quick_runs: 6000,
+        quick_runs: 20000,
         matrix_cells: 0,
-        thorough_runs: 300_000,
+        thorough_runs: 50_000_000,
         real_components: REAL,
         stubbed_components: STUB,
         assumptions: &["BOM-prefixed bodies are compared between two runs of the library (split vs whole), not against the one-shot decoder", "the charset parameter name is lower-case and the only parameter (other spellings are not demanded)"],
@@ -259,9 +259,9 @@ static SPECS: &[PropertySpec] = &[
         scenario: props::c19::scenario,
         level: "exploration",
         rule: "uncompressed C01 plans whose peer goes silent forever (connection open) after a drawn prefix: after the blank line, after a complete chunk, inside a chunk, at the frame end, uniform; prefix delivered under a drawn segmentation with segments spread over simulated time; caller reads with buffers 1 B .. 1 MiB; read timeout 1 h so any wrong wait is visible as simulated time; distinct = plan-shape string; all runs non-trivial (stall fault)",
-        quick_runs: 6000,
+        quick_runs: 30000,
         matrix_cells: 0,
-        thorough_runs: 400_000,
+        thorough_runs: 50_000_000,
         real_components: REAL,
         stubbed_components: STUB,
         assumptions: &["library code costs zero simulated time unless blocked on the transport, so 'must not wait' is t_out == t_in exactly"],
@@ -327,7 +327,7 @@ fn cmd_run(args: &[String]) -> i32 {
     let thorough = tier == "thorough";
     let seed = seed_from_env();
     let runs = std::env::var("VERIF_RUNS").ok().and_then(|s| s.parse().ok()).unwrap_or(if thorough { spec.thorough_runs } else { spec.quick_runs });
-    let max_secs: f64 = std::env::var("VERIF_MAX_SECS").ok().and_then(|s| s.parse().ok()).unwrap_or(if thorough { 900.0 } else { 120.0 });
+    let max_secs: f64 = std::env::var("VERIF_MAX_SECS").ok().and_then(|s| s.parse().ok()).unwrap_or(if thorough { 240.0 } else { 120.0 });
     println!("simcheck property={} tier={} VERIF_SEED={} runs<={} ", spec.id, tier, seed, runs);
     let b = runner::run_batch(spec, seed, thorough, runs, max_secs);
     let vd = verif_dir();
